@@ -75,3 +75,8 @@ PROPS["C10"] = {"components": ["conc"], "monitor_props": ["C10"], "trusted_base"
 PROPS["C11"] = {"components": ["conc", "tower"], "monitor_props": ["C11"], "trusted_base": TB_CONC,
     "assumptions": ["the recorded lock traces (re-recorded and compared on every run) are the lock behaviour of the operations in the states explored; other states are covered by the lock-order graph recorded over every harness run"],
     "partial": "deadlock freedom is a theorem for any number of threads running the recorded operation traces; abort-freedom is proved for the request handlers under local hypotheses and compared (model abort marker vs real panics) on every history for block processing; condition-variable waits are C12."}
+
+PROPS["C12"] = {"components": ["outage"], "monitor_props": ["C12"], "trusted_base": TB_CONC + [
+        "the simulated block source (lightning-block-sync BlockSource) and the fault script; SpvClient's fork walk and partial-progress behaviour are exercised, not verified"],
+    "assumptions": ["granularity: one RPC attempt, one block delivery, one poll are the atomic steps of the model; the condition variable is handled by the scheduler (a wait ends only after a notify)"],
+    "partial": "the full statement is false of the code on the block-processing path and on the request path when a block is mined during the outage (negative theorems + known findings); proved: no submission dropped, 503 iff flag down, request-path recovery without a mined block, partial progress kept. Real time (poll period) is not modelled."}
